@@ -174,16 +174,21 @@ def renderPErr (files : List ProjFile) (e : PErr) : String :=
 def projFuel (files : List ProjFile) : Nat :=
   16 * (files.foldl (fun n f => n + f.content.size + 4) 0) + 64
 
+def kindOfKeyword (k : String) : Option Kind := Kind.all.find? (fun x => x.keyword == k)
+
 def cmdProj (args : List String) : String :=
   match args with
-  | rootHex :: rest =>
+  | rootHex :: rest0 =>
+    let (banned, rest) : List Kind × List String := match rest0 with
+      | b :: r => if b.startsWith "B:" then (((b.drop 2).toString.splitOn ",").filterMap kindOfKeyword, r) else ([], rest0)
+      | [] => ([], [])
     match unhex rootHex, parseFiles rest with
     | some root, some files =>
       let root := root.toList
       match files.find? (fun f => f.name == cleanName root && !f.isDir) with
       | none => "BAD-INPUT no root"
       | some rf =>
-        let core : Core := { current := { name := root, env := mkEnv rf.content rf.oracle.lenAt, sc := Sc.init .stateRoot } }
+        let core : Core := { current := { name := root, env := mkEnv rf.content rf.oracle.lenAt, sc := Sc.init .stateRoot }, banned := banned }
         match Core.run (mkFileSys files) (projFuel files) core with
         | .ok c => renderAccesses c.accesses ++ "TREE " ++ " ".intercalate ((c.ctx.forest.map (renderTree 0)).flatten)
         | .error (.panic _) => "PANIC"
